@@ -2597,8 +2597,40 @@ def m_vec_write(e,run,a,f):
 def m_map_get_key_value(e,run,a,f):
     m=deref(a[0]); i=map_find(run,m,a[1])
     return none() if i is None else some(tuple2(Ref(m.e[i],0),Ref(m.e[i],1)))
+def m_dt_round_subsecs(mode):
+    # SubsecRound::{round,trunc}_subsecs(digits) on a DateTime (digits concrete); leap-second nanoseconds (>= 1e9) stay as they are
+    def m(e,run,a,f):
+        x=deref(a[0]); d=deref(a[1])
+        if not d.conc(): raise Unsupported('round_subsecs with a symbolic digit count')
+        if d.v>=9: return x
+        span=10**(9-d.v); S=x.f[0]; N=x.f[1]
+        s=z3.BitVecVal(S.signed_val(),64) if S.conc() else S.v; n=z3.BitVecVal(N.v,32) if N.conc() else N.v
+        rem=z3.URem(n,z3.BitVecVal(span,32)); down=n-rem
+        if mode=='trunc': n2=down; s2=s
+        else:
+            up=z3.UGE(rem+rem,z3.BitVecVal(span,32))          # chrono: delta_down > delta_up -> round up; ties round up
+            n3=z3.If(up,down+z3.BitVecVal(span,32),down)
+            carry=z3.UGE(n3,z3.BitVecVal(1000000000,32))
+            n2=z3.If(carry,n3-z3.BitVecVal(1000000000,32),n3); s2=z3.If(carry,s+1,s)
+        leap=z3.UGE(n,z3.BitVecVal(1000000000,32))
+        return Agg(x.ty,[_mki(64,True,z3.If(leap,s,s2)),_mki(32,False,z3.If(leap,n,n2))]+list(x.f[2:]))
+    return m
+def m_dt_with_nanosecond(e,run,a,f):
+    x=deref(a[0]); n=deref(a[1])
+    okc=e.binop('Lt',n,Int(32,False,2000000000))
+    if not run.branch_bool(okc,'with_nanosecond.range'): return none()
+    return some(Agg(x.ty,[x.f[0],n]+list(x.f[2:])))
+def m_dt_subsec(which):
+    def m(e,run,a,f):
+        x=deref(a[0]); n=x.f[1]; k={'nanosecond':1,'timestamp_subsec_nanos':1,'timestamp_subsec_micros':1000,'timestamp_subsec_millis':1000000}[which]
+        if k==1: return n
+        return _mki(32,False,z3.UDiv(_zi(n),z3.BitVecVal(k,32)))
+    return m
 def register_misc19(E):
     M=E.model
+    M(r'round_subsecs$',m_dt_round_subsecs('round')); M(r'trunc_subsecs$',m_dt_round_subsecs('trunc'))
+    M(r'(^|::)with_nanosecond$',m_dt_with_nanosecond)
+    for w in ('nanosecond','timestamp_subsec_nanos','timestamp_subsec_micros','timestamp_subsec_millis'): M(r'(^|>::|DateTime::)%s$'%w,m_dt_subsec(w))
     M(r'^<(std::vec::)?Vec<u8> as (std::io::)?Write>::write_fmt$',m_vec_write_fmt); M(r'^<(std::vec::)?Vec<u8> as (std::io::)?Write>::write_all$',m_vec_write_all)
     M(r'^<(std::vec::)?Vec<u8> as (std::io::)?Write>::write$',m_vec_write); M(r'^<(std::vec::)?Vec<u8> as (std::io::)?Write>::flush$',lambda e,run,a,f: ok(UNIT))
     M(r'^(HashMap|BTreeMap)::get_key_value$',m_map_get_key_value)
